@@ -158,6 +158,25 @@ fn one_case(t: i32, i: usize, ctx: &Ctx, rep: &mut Report) {
     };
     let n = r.usize_in(1, ctx.pick(5, 12));
     let mut inputs: Vec<Vec<(i32, Vec<V>)>> = (0..n).map(|_| gen_input(t, &mut r, &c)).collect();
+    // dedicated large cases: one shape gets a LATER part (or, for multipoints, its only part)
+    // whose vertex count straddles a power of two, with an extreme forced into one of its last
+    // or first four vertices (vectorised / chunked folds drop exactly those)
+    let sizes = gen::threshold_sizes(ctx.thorough);
+    let mut forced_large: Option<(usize, usize, usize)> = None;
+    if !gen::is_point(t) && !cfg!(miri) && i >= 20 && i < 20 + 2 * sizes.len() {
+        let sz = sizes[(i - 20) / 2] + (i % 2) * 2; // also sz + 2: remainders 1, 2, 3 modulo 4 all occur
+        let si = r.usize_in(0, inputs.len() - 1);
+        let big: Vec<V> = (0..sz).map(|_| [gen::coord(&mut r, &c, false).to_bits(), gen::coord(&mut r, &c, false).to_bits(), gen::coord(&mut r, &c, true).to_bits(), gen::coord(&mut r, &c, true).to_bits()]).collect();
+        let kind = if t == 31 { r.below(2) as i32 } else { r.below(2) as i32 };
+        if gen::is_multipoint(t) {
+            inputs[si] = vec![(0, big)];
+        } else {
+            inputs[si].push((kind, big));
+        }
+        let pi = inputs[si].len() - 1;
+        forced_large = Some((si, pi, sz));
+        rep.count("large_part_cases(amounts straddling powers of two)", 1);
+    }
     // measures: half of the files keep every measure real data so the header M claim applies
     let real_m = r.chance(0.5);
     if real_m {
@@ -191,7 +210,19 @@ fn one_case(t: i32, i: usize, ctx: &Ctx, rep: &mut Report) {
         }
         inputs[si][pi].1[vi][k] = val.to_bits();
     }
-    if regime == 4 {
+    if let Some((si, pi, sz)) = forced_large {
+        // the extreme goes to one of the last four / first four vertices of the large part
+        let k = *r.pick(&dims);
+        let high = r.chance(0.5);
+        let j = r.usize_in(0, 3);
+        let vi = if r.chance(0.75) { sz - 1 - j } else { j };
+        let mut val = if high { 1e300 } else { -1e300 };
+        if k == 3 && real_m && !(val > NO_DATA) {
+            val = 1e300;
+        }
+        inputs[si][pi].1[vi][k] = val.to_bits();
+    }
+    if regime == 4 && forced_large.is_none() {
         // every value of one dimension is the same special value (the +inf / -inf / MAX traps)
         let k = *r.pick(&dims);
         let val = *r.pick(&[f64::INFINITY, f64::NEG_INFINITY, f64::MAX, f64::MIN, 0.0, -0.0, 1e300, -1e300]);
